@@ -416,6 +416,11 @@ class HDDMA(BaseSPC):
         """
         return self._additional_vars["test_type"]
 
+    def reset(self) -> None:
+        """Reset method."""
+        super().reset()
+        self.test_type.reset()
+
     def _update(self, value: Union[int, float], **kwargs: Any) -> None:
         self.num_instances += 1
 
@@ -737,6 +742,11 @@ class HDDMW(BaseSPC):
         :rtype: McDiarmidOneSidedTest
         """
         return self._additional_vars["test_type"]
+
+    def reset(self) -> None:
+        """Reset method."""
+        super().reset()
+        self.test_type.reset()
 
     def _update(self, value: Union[int, float], **kwargs: Any) -> None:
         self.num_instances += 1
